@@ -910,7 +910,7 @@ func runMatrix(rt *rapid.T, e *env, only map[string]bool) {
 		if en := enumShapes(ci.Name, e.sc); en != nil {
 			s.shapes = append(s.shapes, en...)
 		} else {
-			for i := 0; i < ev.Pick(1, 2); i++ {
+			for i := 0; i < 1; i++ { // one generated shape per command and pass in both tiers (thorough adds passes, all SHA forms, more extras)
 				s.shapes = append(s.shapes, drawShape(rt, ci.Name, pool, e.sc))
 			}
 		}
